@@ -458,9 +458,44 @@ func RunStore(fx *Fixtures, up *client.Upstream, dir string, n int, s AbstractSt
 		pub[i] = e.Key
 	}
 
+	// every second service has a second jwt finalizer with a key store of its own: one key of other
+	// material that, with explicit key ids, carries the key id of the first store's first entry.
+	// The published key set is the union of both stores, and tokens of either finalizer verify.
+	var (
+		sibling string
+		fconf2  map[string]any
+	)
+
+	if n%2 == 0 {
+		sibling = []string{"p256-b", "rsa2048-b", "p384-b"}[(n/2)%3]
+		sib := Entry{Key: sibling, Cert: s.Cert, Enc: s.Enc, KID: entries[0].KID}
+
+		sibBytes, err := fx.BuildStore([]Entry{sib})
+		if err != nil {
+			return err
+		}
+
+		sibPath := filepath.Join(dir, fmt.Sprintf("store-%d-sibling.pem", n))
+		if err := os.WriteFile(sibPath, sibBytes, 0o600); err != nil {
+			return err
+		}
+
+		defer os.Remove(sibPath)
+
+		fconf2, _ = finalizerConfig(sibPath, "", iss, n)
+		pub = append(pub, sibling)
+	}
+
 	sort.Strings(pub)
 
-	mkIn := func(c AbstractCase) CaseIn {
+	usesSibling := func(k int) bool { return sibling != "" && k%4 == 3 }
+
+	mkIn := func(k int, c AbstractCase) CaseIn {
+		active, keyID := active, keyID
+		if usesSibling(k) {
+			active, keyID = sibling, ""
+		}
+
 		effIss := iss
 		if effIss == "" {
 			effIss = "heimdall" // documented default of signer.name
@@ -489,13 +524,18 @@ func RunStore(fx *Fixtures, up *client.Upstream, dir string, n int, s AbstractSt
 		return CaseObs{JwksSet: []string{}, Private: []string{}, Claims: ClaimsObs{Sub: "!none", Iss: "!none"}}
 	}
 
+	finalizers := []any{map[string]any{"id": "jwt", "type": "jwt", "config": fconf}}
+	if fconf2 != nil {
+		finalizers = append(finalizers, map[string]any{"id": "jwt2", "type": "jwt", "config": fconf2})
+	}
+
 	a, err := app.Start(app.Options{
 		Mode: app.Proxy,
 		Dir:  dir,
 		Config: map[string]any{
 			"mechanisms": map[string]any{
 				"authenticators": []any{map[string]any{"id": "anon", "type": "anonymous"}},
-				"finalizers":     []any{map[string]any{"id": "jwt", "type": "jwt", "config": fconf}},
+				"finalizers":     finalizers,
 			},
 		},
 	})
@@ -504,7 +544,7 @@ func RunStore(fx *Fixtures, up *client.Upstream, dir string, n int, s AbstractSt
 		for k, c := range cases {
 			o := emptyObs()
 			o.Error = "service did not start: " + firstLine(err.Error())
-			w.Emit(CaseLine{Ev: "case", ID: fmt.Sprintf("s%d-c%d", n, k), In: mkIn(c), Obs: o})
+			w.Emit(CaseLine{Ev: "case", ID: fmt.Sprintf("s%d-c%d", n, k), In: mkIn(k, c), Obs: o})
 		}
 
 		return nil
@@ -531,6 +571,9 @@ func RunStore(fx *Fixtures, up *client.Upstream, dir string, n int, s AbstractSt
 		}
 
 		fin := config.MechanismConfig{"finalizer": "jwt"}
+		if usesSibling(k) {
+			fin["finalizer"] = "jwt2"
+		}
 		if len(over) != 0 {
 			fin["config"] = map[string]any(over)
 		}
@@ -566,7 +609,7 @@ func RunStore(fx *Fixtures, up *client.Upstream, dir string, n int, s AbstractSt
 
 	for k, c := range cases {
 		id := fmt.Sprintf("s%d-c%d", n, k)
-		in := mkIn(c)
+		in := mkIn(k, c)
 		o := emptyObs()
 		o.Loaded = true
 
@@ -610,13 +653,17 @@ func RunStore(fx *Fixtures, up *client.Upstream, dir string, n int, s AbstractSt
 				o.Kid, o.Alg, o.Typ, o.Key = tf.Kid, tf.Alg, tf.Typ, tf.Key
 				o.Claims = claimsOf(tf.Payload)
 
+				// several published keys may carry the kid (key stores of different finalizers): a
+				// verifier tries them all, the one that verifies is the one the kid names
 				for _, jk := range jf.KeySet.Key(tf.Kid) {
-					o.JwksKeyOfKid = fx.NameOf(jk.Key)
-					o.JwksAlgOfKid = jk.Algorithm
-
 					var m map[string]any
 					if tok.Claims(jk, &m) == nil {
 						o.Verified = true
+						o.JwksKeyOfKid = fx.NameOf(jk.Key)
+						o.JwksAlgOfKid = jk.Algorithm
+					} else if !o.Verified {
+						o.JwksKeyOfKid = fx.NameOf(jk.Key)
+						o.JwksAlgOfKid = jk.Algorithm
 					}
 				}
 
